@@ -22,17 +22,19 @@ K_C05 = kh("c05_mirror", ["c05_opt_u8", "c05_opt_u16", "c05_opt_u32", "c05_opt_u
 
 
 LEX3 = ["c06_ipv6_3", "c06_ipv4_3", "c06_two_char_3", "c06_one_char_3", "c06_as_number_3", "c06_hex_number_3", "c06_number_3",
-        "c06_f_string_3", "c06_string_3", "c06_char_3", "c06_keyword_or_ident_3", "c06_f_string_part_3", "c06_err_span_3"]
+        "c06_f_string_3", "c06_string_3", "c06_char_3", "c06_keyword_or_ident_3", "c06_f_string_part_3", "c06_err_span_3",
+        "c06_shebang_3", "c06_parser_next_3"]
 LEX4 = ["c06_ipv6_4", "c06_ipv4_4", "c06_as_number_4", "c06_hex_number_4", "c06_number_4", "c06_string_4", "c06_char_4",
-        "c06_keyword_or_ident_4", "c06_number_ascii_5", "c06_ipv4_ascii_5", "c06_f_string_part_4", "c06_err_span_4"]
+        "c06_keyword_or_ident_4", "c06_number_ascii_5", "c06_ipv4_ascii_5", "c06_f_string_part_4", "c06_err_span_4",
+        "c06_shebang_4", "c06_parser_next_4"]
 K_C06 = kh("c06_lexer", LEX3, "quick", 1800) + kh("c06_lexer", LEX4, "thorough", 3600)
 K_C09 = kh("c09_grammar", ["c09_number_ascii_4", "c09_hex_asn_ascii_4", "c09_ident_3", "c09_precedence_table", "c09_quoted_ascii_5"], "quick", 1800) \
     + kh("c09_grammar", ["c09_number_ascii_5", "c09_hex_asn_ascii_5", "c09_ident_4"], "thorough", 3600)
 K_C10 = kh("c10_builtins", ["c10_prefix_new_total_v4", "c10_prefix_new_total_v6"], "quick", 600)
 K_C17 = kh("c17_strings", ["c17_bytes_view_2", "c17_bytes_get_3", "c17_lines_get_2"], "quick", 1800) \
     + kh("c17_strings", ["c17_bytes_view_3"], "thorough", 3600)
-K_C20 = kh("c20_memory", ["c20_memory_write_read", "c20_memory_rejects"], "quick", 1200)
-K_C15 = kh("c15_list", ["c15_compute_capacity", "c15_eq_distinct_rust", "c15_eq_alias", "c15_eq_distinct_erased_len"], "quick", 1200)
+K_C20 = kh("c20_memory", ["c20_memory_write_read", "c20_memory_rejects", "c20_memory_dangling_frame"], "quick", 1200)
+K_C15 = kh("c15_list", ["c15_compute_capacity", "c15_eq_distinct_rust", "c15_eq_alias", "c15_eq_distinct_erased_len", "c15_eq_rust_lengths"], "quick", 1200)
 K_C16 = kh("c16_sched", ["c16_get_vs_push1_linearizable", "c16_len_vs_push1_linearizable"], "quick", 2400) \
     + kh("c16_sched", ["c16_get_vs_push4_realloc_site1"], "thorough", 5400)
 THOROUGH_MEM = {"c16_sched::c16_get_vs_push4_realloc_site1": 48}
@@ -97,7 +99,7 @@ def c02(res):
 
 def c05(res):
     r = kani_part(res, K_C05)
-    T.run_tv(res, {"F10", "F7"}, {"value", "trace"}, note="identity functions, pass-through to host functions, Option/Verdict built in the script and read by Rust "
+    T.run_tv(res, {"F10", "F7"}, {"value", "trace"}, reject_is_violation=True, note="identity functions, pass-through to host functions, Option/Verdict built in the script and read by Rust "
              "and vice versa: bytes returned/passed == independent C-layout encoding of the expected value, for all values")
     res.level = "model_checking"
     finish_k(res, r,
@@ -140,11 +142,15 @@ def c06(res):
              [{"harness": "c06_keyword_or_ident_3", "obligation": "for all UTF-8 s, |s| <= 3: keyword_or_ident(s) does not panic; if it fires the span "
                "is 0..end, 0 < end <= |s|, end on a char boundary, cursor == span"},
               {"harness": "c06_err_span_3", "obligation": "with next_token replaced by 'skips any prefix, then declines': next_inner's error span lies "
-               "inside the input on char boundaries"}],
+               "inside the input on char boundaries"},
+              {"harness": "c06_parser_next_3", "obligation": "same stub: whatever Parser::next / run_parser report (invalid token, end of input, input not "
+               "consumed) cites start <= end <= |s| on char boundaries"},
+              {"harness": "c06_shebang_3", "obligation": "skip_shebang does not panic, leaves the cursor on a char boundary inside the input, and consumes "
+               "exactly the first line of an input starting with #! (or nothing)"}],
              TRUST_K + ["stub: Lexer::record_almost_keyword -> no-op (diagnostic hint only)",
                         "stub (err_span only): Lexer::next_token -> consumes an arbitrary boundary-aligned prefix and declines",
                         "bound: tokens of at most 3 (quick) / 4-5 (thorough) bytes; composition argument in DESIGN.md 5/C06",
-                        "outside: parser, type checker, module loading, report rendering other than Span arithmetic"])
+                        "outside: the parser above its token layer (Parser::next), type checker, module loading, report rendering other than Span arithmetic"])
 
 
 def c09(res):
